@@ -148,7 +148,9 @@ def check_literal_v1(rep, r, lit, wrap=False):
         text = lit
     inp = dict(engine="v1", pattern=pat, literal=lit)
     try:
-        pobj = v1patterns.compile_pattern("{pycalver}", pat)
+        # alone, the literal is compiled the way `bumpver grep` / `test` do it (the text is its own version pattern) -- the very argument
+        # tuple the v2 compiler has already seen in this process; between parts it is a file pattern of a {pycalver} project
+        pobj = v1patterns.compile_pattern("{pycalver}", pat) if wrap else v1patterns.compile_pattern(pat)
     except Exception as ex:
         rep.violation("legacy pattern with literal text does not compile: %r" % ex, input=inp, **{"class": kc or "compile-error"})
         return
@@ -273,6 +275,20 @@ def run(rep, tier, seed, model_ok=True, effort=1):
         if code != 0 or got != want:
             rep.violation("`bumpver update` with a literal search pattern: %s" % ("exit %s" % code if code != 0 else "the file is not rewritten exactly at the line carrying the literal text"),
                           input=dict(pattern=pat, literal=lit, config="setup.cfg" if cfg_style else "bumpver.toml", file_before=content, file_after=got, expected=want, logs=logs[-3:]), **{"class": "update-literal"})
+    # setup.cfg: quote characters around a pattern are pattern text (the layout `bumpver init` writes): only the quoted occurrence is rewritten
+    for q_ in ('"', "'"):
+        pat = q_ + "{version}" + q_
+        content = "version = %s1.2.3%s\n# see the notes for 1.2.3 (plain mention)\n" % (q_, q_)
+        prj = project.TempProject("MAJOR.MINOR.PATCH", "1.2.3", files={"f.txt": [pat]}, contents={"f.txt": content}, fmt="setup.cfg", quote_cfg=False)
+        with prj:
+            err = prj.cfg_error(impl)
+            code, out, logs, exc = prj.run(impl, ["update", "--no-fetch", "--patch"]) if not err else (1, "", [str(err)], None)
+            got = prj.snapshot().get("f.txt", b"").decode("utf-8", "replace")
+        want = "version = %s1.2.4%s\n# see the notes for 1.2.3 (plain mention)\n" % (q_, q_)
+        rep.case(("cfg-quoted-pattern", q_), nontrivial=True)
+        if code != 0 or got != want:
+            rep.violation("setup.cfg pattern %s: the quote characters are not matched literally" % pat, input=dict(pattern=pat, file_before=content, file_after=got, expected=want, exit=code, logs=logs[-3:]),
+                          **{"class": "update-literal"})
     # a sample through the CLI
     import tempfile, os
     for lit in ["a|b", "x.y", "(1)+2", "c{2}", "q?", "a*b", "p-q", "\\[t\\]"]:
